@@ -139,6 +139,19 @@ class ContextualProfile(ByCountProfilerMixin, Profile):
             if self.enable_count == 0:
                 self.disable()
 
+    def dump_stats(self, filename):
+        """ Write the statistics gathered so far.
+
+        Unlike `Profile.dump_stats()`, which goes through
+        `.create_stats()`, this does not switch the profiler off: a
+        periodic dump (`--output-interval`) written while the program is
+        running must not end the profiling of the rest of the run.
+        """
+        import marshal
+        self.snapshot_stats()
+        with open(filename, 'wb') as f:
+            marshal.dump(self.stats, f)
+
     # FIXME: `profile.Profile` is fundamentally incompatible with the
     # by-count paradigm we use, as it can't be `.enable()`-ed nor
     # `.disable()`-ed
